@@ -496,6 +496,9 @@ class FnTr:
             return go(0, [])
         if kd == "try":
             raise TranslationError("`?` outside the complete! shape")
+        inl = self.g.try_inline(e, self.name)
+        if inl is not None:
+            return self.ev(inl, k)
         raise TranslationError("%s: expression outside the fragment: %s" % (self.name, repr(e)[:120]))
 
     def _cast(self, t, ty, to):
@@ -1080,6 +1083,9 @@ class FnTr:
             if ty == "res_usize":
                 pre, (t,) = self.resolve("(%s §)" % cn if kind == "mut" else cn)
                 return pre + "ireturn %s" % t
+        inl = self.g.try_inline(e, self.name)
+        if inl is not None:
+            return self.result(inl, mode)
         raise TranslationError("%s: result expression outside the fragment: %s" % (self.name, repr(e)[:120]))
 
     def result_arm(self, pat, scrut, body, mode):
@@ -1110,11 +1116,23 @@ class FnTr:
 
     # ---------------------------------------------------------- whole function
     def translate(self):
-        if self.rty == "unit" and self.ast[2] is not None:
+        if self.rty == "unit" and self.ast[2] is not None \
+                and not (self.ast[2][0] == "call" and self.ast[2][1] in (("path", "Ok"), ("path", "Err"))):
             return self.stmts(self.ast[1] + [("expr", self.ast[2])], None, lambda t, ty: "iret tt")
         body = self.stmts_result(self.ast[1], self.ast[2], "tail") if self.ast[2] is not None \
             else self.stmts(self.ast[1], None, lambda t, ty: "iret tt")
         return body
+
+
+def _subst(node, m):
+    """replace the paths named in m by the given expressions (helper inlining)"""
+    if isinstance(node, list):
+        return [_subst(x, m) for x in node]
+    if isinstance(node, tuple):
+        if len(node) == 2 and node[0] == "path" and node[1] in m:
+            return m[node[1]]
+        return tuple(_subst(x, m) for x in node)
+    return node
 
 
 class Gen:
@@ -1140,6 +1158,7 @@ class Gen:
             "allow_spaces_after_header_name": "bool", "allow_obsolete_multiline_headers": "bool",
             "allow_space_before_first_header_name": "bool", "ignore_invalid_headers": "bool"}}
         self.fn_rty = {}
+        self._helpers = {}
         self.out = []
         self.errors = []
 
@@ -1291,6 +1310,9 @@ class Gen:
         if kind != "mut" or ty != "slots":
             raise TranslationError("header machine: first argument must be the mutable header slice")
         cfgarg = a[2][2] if a[2][0] == "ref" else a[2]
+        inl = self.try_inline(cfgarg, f.name)
+        if inl is not None and not inl[2][1] and inl[2][2] is not None:
+            cfgarg = inl[2][2]          # a helper whose body is just the struct literal
         if cfgarg == ("call", ("path", "HeaderParserConfig::default"), []):
             self.struct_derives_default("HeaderParserConfig")
             hc, guards = "hcfg_default", []
@@ -1324,6 +1346,78 @@ class Gen:
             raise TranslationError("struct %s fields changed: %s" % (name, fields))
 
     # ------------------------------------------------------------ emit one function
+    # ---------------------------------------------------------- private helper functions are inlined
+    # A call `helper(a1, .., an)` of a free function of lib.rs that is not one of the translated functions, has no
+    # `return` / `?` inside and is not recursive is replaced by its body with the parameters substituted (plain
+    # paths and literals) or bound by `let` (anything else) -- the same treatment a macro invocation gets.  So
+    # extracting a few lines into an `#[inline]` helper, or inlining one, leaves the generated text unchanged.
+    def helper_def(self, name):
+        if name in self._helpers:
+            return self._helpers[name]
+        self._helpers[name] = None
+        try:
+            hdr, body = rsparse.find_fn(self.lib, name, 0)
+        except TranslationError:
+            return None
+        # exactly one definition, a free function (no self), simple `ident: type` parameters
+        n = sum(1 for i in range(len(self.lib) - 1) if self.lib[i] == ("ident", "fn") and self.lib[i + 1] == ("ident", name))
+        if n != 1:
+            return None
+        i = next(j for j, t in enumerate(hdr) if t == ("op", "("))
+        j = rsparse.matching(hdr, i, "(", ")")
+        params, depth, cur = [], 0, []
+        for t in hdr[i + 1:j]:
+            if t[1] in ("(", "[", "<"):
+                depth += 1
+            elif t[1] in (")", "]", ">"):
+                depth -= 1
+            if t == ("op", ",") and depth == 0:
+                params.append(cur)
+                cur = []
+            else:
+                cur.append(t)
+        if cur:
+            params.append(cur)
+        names = []
+        for ptoks in params:
+            ptoks = [t for t in ptoks if t != ("ident", "mut")]
+            if len(ptoks) < 3 or ptoks[0][0] != "ident" or ptoks[1] != ("op", ":") or ptoks[0][1] == "self":
+                return None
+            names.append(ptoks[0][1])
+        p = rsparse.RParser(body, self.macros)
+        blk = p.parse_block_body(None)
+        if not p.done():
+            return None
+        txt = repr(blk)
+        if "('return'" in txt or "('try'" in txt or ("('path', '%s')" % name) in txt:
+            return None
+        self._helpers[name] = (names, blk)
+        return self._helpers[name]
+
+    def try_inline(self, node, current):
+        """the body of a private helper with the call's arguments substituted, or None"""
+        if not (isinstance(node, tuple) and len(node) == 3 and node[0] == "call" and node[1][0] == "path"
+                and isinstance(node[1][1], str)):
+            return None
+        name = node[1][1]
+        if "::" in name or not name[:1].islower() or name == current:
+            return None
+        hd = self.helper_def(name)
+        if hd is None or len(hd[0]) != len(node[2]):
+            return None
+        names, blk = hd
+        sub, lets = {}, []
+        for pn, a in zip(names, node[2]):
+            a0 = a
+            while a0[0] in ("paren", "ref"):
+                a0 = a0[1] if a0[0] == "paren" else a0[-1]
+            if a0[0] in ("path", "lit", "bool") or (a0[0] == "field" and a0[1][0] == "path"):
+                sub[pn] = a0
+            else:
+                lets.append(("let", ("pbind", pn, False, None), None, a))
+        body = _subst(blk, sub)
+        return ("mexp", "fn " + name, ("block", lets + list(body[1]), body[2]))
+
     def emit_fn(self, rust_name, coqname, rty, nth=0, params=None, brk_ty="unit", self_fields=None,
                 extra_args="", top=False, param_muts=()):
         hdr, body = rsparse.find_fn(self.lib, rust_name, nth)
